@@ -104,6 +104,43 @@ func (g *Gen) closureEffects(fn *ssa.Function, depth int) closureEffect {
 	return ce
 }
 
+// callbackInvariants evaluates the `preserves` clauses of the closures passed to a callsback callee in the
+// caller's current state (captured variable names bound through the MakeClosure cells).
+func (g *Gen) callbackInvariants(c *ssa.CallCommon, ins ssa.Instruction, assert bool) {
+	for _, a := range c.Args {
+		mc, ok := a.(*ssa.MakeClosure)
+		if !ok {
+			continue
+		}
+		fn := mc.Fn.(*ssa.Function)
+		con := g.P.cs.Funcs[canon(fn)]
+		if con == nil || len(con.Preserves) == 0 {
+			continue
+		}
+		save := g.cloBind
+		g.cloBind = map[string]ssa.Value{}
+		for i, fv := range fn.FreeVars {
+			if i < len(mc.Bindings) {
+				g.cloBind[fv.Name()] = mc.Bindings[i]
+			}
+		}
+		for _, cl := range con.Preserves {
+			env := g.calleeEnv(map[string]Term{}, ins)
+			t, err := g.eval(cl.Expr, env)
+			if err != nil {
+				g.bindFail(cl, err)
+				continue
+			}
+			if assert {
+				g.oblige("cbinv", shortKey(canon(fn))+":"+cl.Label, t.S, cl.Where, cl.Text, cl.Props)
+			} else {
+				g.assume(t.S)
+			}
+		}
+		g.cloBind = save
+	}
+}
+
 func (g *Gen) applyCallbacks(c *ssa.CallCommon) {
 	for _, a := range c.Args {
 		mc, ok := a.(*ssa.MakeClosure)
